@@ -36,9 +36,7 @@ def replay(prop, payload):
         open(inp, 'w').write(_tlc_string_line('OPS', payload['ops']))
         M, NR = payload['start']['M'], payload['start']['NR']
         vlib.harness(['connset', '-ops', inp, '-M', str(M), '-NR', str(NR), '-out', out, '-shards', '1', '-seed', str(vlib.seed())])
-        cfg = 'ConnSetTrace_M%d_NR%d.cfg' % (M, NR)
-        with open(os.path.join(vlib._specdir(), cfg), 'w') as f:
-            f.write('CONSTANTS\n  M = %d\n  NR = %d\nSPECIFICATION TSpec\nPOSTCONDITION TraceAccepted\nCHECK_DEADLOCK FALSE\n' % (M, NR))
+        cfg = m1.connset_trace_cfg(M, NR)
         mm = _validate('ConnSetTrace', sorted(glob.glob(out + '/*.ndjson')), cfg=cfg)
     elif kind == 'conflict':
         open(inp, 'w').write(_tlc_string_line('CASE', payload['event']['case']))
